@@ -12,7 +12,7 @@ import base64
 
 from ..gen import cells as G
 from ..gen import bocdags as D
-from ..translate import boccells, bocemit
+from ..translate import arith, boccells, bocemit, bsops, cellctor, entrysrc
 
 SPEC = dict(
     manifest=dict(
@@ -39,25 +39,31 @@ SPEC = dict(
              'invariant and the regenerated to_boc is the lookup + layout of exactly these cells (C04: c04_src_order_valid_any, c04_src_to_boc_any); c03_roundtrip_src2: regenerated emitter, regenerated '
              'input-form detection and regenerated parser compose to the identity on every spec-valid DAG and all 6 valid option sets (bytes, hex and base64 form) - proved through the round trip for ANY '
              'valid order (Proofs/BocRoundTripAny.lean), not through the hand model of the traversal; the equality regenerated to_boc = PCell.toBoc (c03_src_emitter) is the separate module '
-             'Properties/C04Model.lean (if only it breaks: traversal tie = valid-order-only, see C04). bytes.fromhex / base64.b64decode, the cell constructor (C01/C02 tie) and the entry points stay hand models.',
+             'Properties/C04Model.lean (if only it breaks: traversal tie = valid-order-only, see C04). TIE TO THE SOURCE, entry points: Cell.from_boc / one_from_boc (incl. the more-than-one-root raise), Slice.one_from_boc, Builder.one_from_boc / from_boc, Cell.begin_parse / to_slice / to_builder (refusal of exotic cells, capacity raises of store_cell) / copy, Slice.to_cell / copy / from_cell, Builder.end_cell / to_cell / to_slice are regenerated on every run as VALUE functions (harness/translate/entrysrc.py + pyvalue.py -> Generated/EntrySrc.lean; a cell object = its cached attributes + child objects; Cell(...) and the class handed to Boc.deserialize = the REGENERATED constructor of Generated/CellCtor.lean, Builder().store_cell = the regenerated Builder.store_cell, Boc(data) / deserialize = the regenerated Boc.__init__ / Boc.deserialize; validated against the library on 52 root objects and ~200 inputs incl. bags with 0 and 2 roots, damaged bags and the three input forms) and proved equal to Model/BocEntry.lean for all arguments / cell / slice / builder objects (c03_src_entrypoints; the parser is shown natural in the cell constructor: Proofs/SrcEntry.lean deserialize_map, deserialize_inv). c03_roundtrip_src3: regenerated emitter -> regenerated Boc.__init__ / parser / CONSTRUCTOR -> regenerated entry point returns THE ORIGINAL OBJECT VALUE (same cached hashes, depths, mask, bits, type at every sub-object) through bytes, hex and base64; the Slice entry returns all bits / child objects / the type with nothing consumed, the Builder entry exactly these for an ordinary root and raises for an exotic one; begin_parse().to_cell(), copy() and to_builder().end_cell() give the original back. bytes.fromhex / base64.b64decode stay hand models.',
         level_note='Trusted: Lean kernel (propext, Classical.choice, Quot.sound); the hand models Model/BocEmit.lean (proved equal to the emitter regenerated from cell.py: translator pydict.py / pyobj.py + declared interface in bocemit.py + PyDict.lean trusted, validated against the library on every change; also tied byte-for-byte in C04), Model/BocParse.lean (header parser, cell reader and the loops of deserialize: proved equal to the functions regenerated from the source, translator harness/translate/pyloops.py + pybytes.py trusted and validated against CPython on every change; Boc.__init__: tied differentially in C05 and here on '
-                   'every emitted bag <= 1500 bytes), Model/BocForms.lean (bocinput correspondence), Model/BocEntry.lean (bocone correspondence) and Model/Cell.lean (constructor, C01/C02); '
+                   'every emitted bag <= 1500 bytes), Model/BocForms.lean (bocinput correspondence), Model/BocEntry.lean (proved equal to the entry points regenerated from cell.py / slice.py / builder.py: translator pyvalue.py + declared interface in entrysrc.py + PyEntry.lean trusted, validated against the library on every change; also the bocone correspondence) and Model/Cell.lean (constructor, C01/C02; the regenerated entry points call the REGENERATED constructor); '
                    'base64/binascii/bytes.fromhex behave as modelled; SHA-256 abstract (arbitrary H) with the local NoCollision hypothesis; bounds 2^32 cells / 2^63 payload bytes are the format\'s. '
                    'Sampled only: model <-> library agreement (~15k model round trips + ~16k library round trips per quick run incl. 255/256/257 cells, payload 127..65536 bytes, depth-1023 chains, exotic cells, '
                    'maximal sharing; thorough: 65535/65536/70000 cells).',
-        technique='Lean 4 proof (hand models of emitter and parser composed through the spec encoder; the parser model is proved equal to the parser regenerated from the source on every run) '
+        technique='Lean 4 proof (hand models of emitter and parser composed through the spec encoder; emitter, input forms, parser and entry points are regenerated from the source on every run and proved equal to the models; round trip on object values through the regenerated constructor) '
                   '+ full round trip through the library as oracle + differential correspondence of every model',
     ),
     translators=[('deserialize.py deserialize_boc_header, deserialize_cell, deserialize->Generated/BocHeader.lean, BocCells.lean', boccells.regenerate),
-                 (bocemit.TIE_NAME, bocemit.regenerate_tied)],
-    lean_targets=['TonVerif.Proofs.SrcBocDeser', 'TonVerif.Proofs.SrcBocEmit', 'TonVerif.Proofs.SrcOrderAny', 'TonVerif.Proofs.SrcBocAny'],
+                 (bocemit.TIE_NAME, bocemit.regenerate_tied),
+                 # the entry points call the regenerated constructor and the regenerated Builder.store_cell: regenerate these first
+                 ('exotic.py LevelMask->Generated/LevelMask.lean', arith.regenerator('LevelMask')),
+                 ('cell.py Cell.__init__/resolve_mask/calculate_hashes/get_data_bytes->Generated/CellCtor.lean', cellctor.regenerate),
+                 ('builder.py/tvm_bitarray.py store_* methods->Generated/BuilderOps.lean', bsops.regenerator('BuilderOps')),
+                 (entrysrc.TIE_NAME, entrysrc.regenerate)],
+    lean_targets=['TonVerif.Proofs.SrcBocDeser', 'TonVerif.Proofs.SrcBocEmit', 'TonVerif.Proofs.SrcOrderAny', 'TonVerif.Proofs.SrcBocAny',
+                  'TonVerif.Proofs.SrcEntry'],
     design_ref='DESIGN.md §6 C03',
     rule='same DAG generators as C04; each DAG x 6 option sets x {bytes, hex, base64} x {Cell, Slice, Builder}.one_from_boc (large DAGs: all option sets through Cell/bytes, one option set '
          'through all forms and entry points); distinct = distinct (dag, root, option set, form, entry); non-trivial = more than one cell or non-empty data',
     trusted_base=['Model/BocForms.lean mirrors the bytes / hex / base64 detection of Boc.__init__ by hand (bocinput correspondence)',
                   'Model/BocEmit.lean: Cell.order / serialize / to_boc proved equal to the functions regenerated from cell.py (c03_src_emitter; trusted: translator pydict.py + interface in bocemit.py + PyDict.lean); Model/BocForms.inputBytes proved equal to the regenerated Boc.__init__ (c03_src_forms; fromhex / b64decode stay hand models)',
                   'Model/BocParse.lean: deserialize_boc_header / deserialize_cell / deserialize are proved equal to the functions regenerated from the source (c03_src_parser; trusted: the translator pyloops.py / pybytes.py and PyBytes.lean); Boc.__init__ by correspondence',
-                  'Model/BocEntry.lean mirrors the three one_from_boc class methods, begin_parse and to_builder (bocone correspondence)'],
+                  'Model/BocEntry.lean mirrors the three one_from_boc class methods, begin_parse and to_builder: proved equal to the functions regenerated from the source (c03_src_entrypoints; trusted: translator pyvalue.py, the declared interface in entrysrc.py - a cell object = PCell, Cell(...) = the regenerated constructor, containers read by content - and lean/TonVerif/PyEntry.lean); also the bocone correspondence'],
     assumptions=['bytes.fromhex / base64.b64decode behave as modelled', 'SHA-256 is abstract: theorems hold for every H under the local NoCollision hypothesis on the cells at hand'],
 )
 
@@ -296,10 +302,66 @@ def check_forms_oracle(ctx, texts):
                 ctx.fail(f'forms:{form}', f'Boc({form} text of a byte string).data differs from the byte string', {'bytes': b.hex(), 'form': form, 'text': f(b)[:200]}, str(got)[:80], b.hex())
 
 
+def check_conversions(ctx, tag, nodes, root):
+    """the conversions of Model/BocEntry.lean / Generated/EntrySrc.lean on the library alone: a cell taken through copy(),
+    begin_parse().to_cell(), to_slice().to_cell(), Slice.from_cell().to_cell(), a partly read slice's copy() / to_cell(), and (ordinary
+    cells) to_builder().end_cell() / to_cell() / to_slice().to_cell() is the SAME cell: hash, bits, type, references recursively"""
+    from pytoniq_core.boc.slice import Slice
+    c = G.lib_build(nodes)[root if root is not None else len(nodes) - 1]
+    if c is None:
+        return
+    inp = {'tag': tag, 'dag': [list(n) for n in nodes], 'root': root}
+    routes = [('copy', lambda: c.copy()), ('begin_parse.to_cell', lambda: c.begin_parse().to_cell()), ('to_slice.to_cell', lambda: c.to_slice().to_cell()),
+              ('Slice.from_cell.to_cell', lambda: Slice.from_cell(c).to_cell()), ('begin_parse.copy.to_cell', lambda: c.begin_parse().copy().to_cell())]
+    if c.type_ == -1:
+        routes += [('to_builder.end_cell', lambda: c.to_builder().end_cell()), ('to_builder.to_cell', lambda: c.to_builder().to_cell()),
+                   ('to_builder.to_slice.to_cell', lambda: c.to_builder().to_slice().to_cell())]
+    for name, f in routes:
+        ctx.case(('conv', tag, root, name), nontrivial=bool(nodes[root if root is not None else -1][1] or nodes[root if root is not None else -1][2]))
+        try:
+            why = same_dag(c, f())
+        except Exception as e:
+            why = f'raised {type(e).__name__}: {e}'
+        if why:
+            ctx.fail(f'conversion:{name}:{why.split(" at ")[0][:40]}', f'{name} of a cell does not give the same cell back: {why}', dict(inp, route=name), why, 'identical hash and structure')
+    if c.refs and len(c.bits) >= 1:
+        # a partly read slice: to_cell() / copy() hold exactly the REMAINING bits and references
+        for name, f in (('read.to_cell', lambda s: s.to_cell()), ('read.copy.to_cell', lambda s: s.copy().to_cell())):
+            try:
+                s = c.begin_parse()
+                s.load_bit()
+                s.load_ref()
+                d = f(s)
+                why = None if (d.bits.to01() == c.bits.to01()[1:] and [r.hash for r in d.refs] == [r.hash for r in c.refs[1:]] and d.type_ == c.type_) else \
+                    'not the remaining bits / references'
+            except Exception as e:
+                why = None if c.type_ != -1 else f'raised {type(e).__name__}: {e}'        # the rest of an exotic cell need not be a valid cell
+            ctx.case(('conv', tag, root, name))
+            if why:
+                ctx.fail(f'conversion:{name}:{why[:40]}', f'{name} of a slice after load_bit / load_ref: {why}', dict(inp, route=name), why, 'remaining bits and references')
+
+
 def src_search(ctx):
-    """a source obligation broke: (emitter / forms) Lean compares regenerated vs hand model on boundary DAGs and texts, the differing
-    ones are round-tripped first; (parser) round-trip the boundary DAGs of C05's cell grid"""
+    """a source obligation broke: (entry points) Lean compares the regenerated entry points / conversions with Model/BocEntry.lean on small DAGs
+    and on bags in every input form, the differing ones go to the round-trip oracle and the conversion oracle first; (emitter / forms) Lean
+    compares regenerated vs hand model on boundary DAGs and texts, the differing ones are round-tripped first; (parser) round-trip the boundary
+    DAGs of C05's cell grid"""
     from . import C05
+    ecases = entrysrc.validation_dags()
+    efound, edata = entrysrc.diff_inputs(ctx, ecases, entrysrc.validation_data())
+    by_tag = {t: (n, r) for t, n, r in ecases}
+    hit = [(t, n, r) for t, n, r, _ in efound]
+    for tag, _, _ in edata:
+        t = tag.split(':')[0]
+        if t in by_tag and t not in {x[0] for x in hit}:
+            hit.append((t,) + by_tag[t])
+    for tag, nodes, root in hit[:25]:
+        check_conversions(ctx, 'src-entry-' + tag, nodes, root)
+        check_case(ctx, 'src-entry-' + tag, nodes, root)
+        if len(ctx.failures) >= 3:
+            return True
+    if ctx.failures:
+        return True
     cases = [c for c in bocemit.validation_dags() if len(c[1]) <= bocemit.BIG]
     texts = [t for t in bocemit.validation_texts() if t.isascii()]
     found, ftexts = bocemit.diff_inputs(ctx, cases, texts)
@@ -342,6 +404,9 @@ def run(ctx):
 
 def replay(ctx, payload):
     inp = payload.get('input') or {}
+    if isinstance(inp.get('dag'), list) and inp.get('route'):
+        nodes = [(k, b, tuple(r)) for k, b, r in inp['dag']]
+        return check_conversions(ctx, inp.get('tag', 'replay'), nodes, inp.get('root'))
     if isinstance(inp.get('dag'), list):
         nodes = [(k, b, tuple(r)) for k, b, r in inp['dag']]
         check_case(ctx, inp.get('tag', 'replay'), nodes, inp.get('root'),
